@@ -55,20 +55,20 @@ impl Model {
     }
 }
 
-pub const NOPS: usize = 24;
+pub const NOPS: usize = 25;
 pub const OP_NAMES: [&str; NOPS] = [
     "insert", "get", "get_mut", "contains_key", "get_key_value", "index", "remove", "try_insert", "entry", "entry_ref",
     "extend", "from_iter", "clear", "reserve_shrink", "retain", "drain", "extract_if", "clone", "iterate", "raw_entry_mut",
-    "rustc_entry", "get_many_mut", "leak", "raw_entry",
+    "rustc_entry", "get_many_mut", "leak", "raw_entry", "combinators_fmt",
 ];
 /// general mix
-pub const W_GENERAL: [u32; NOPS] = [30, 10, 5, 4, 5, 3, 18, 5, 14, 8, 3, 1, 1, 5, 2, 1, 2, 2, 3, 8, 6, 3, 0, 3];
+pub const W_GENERAL: [u32; NOPS] = [30, 10, 5, 4, 5, 3, 18, 5, 14, 8, 3, 1, 1, 5, 2, 1, 2, 2, 3, 8, 6, 3, 0, 3, 6];
 /// mix for memory-safety runs: as general, plus leak ops
-pub const W_LEAKY: [u32; NOPS] = [30, 8, 5, 3, 4, 2, 18, 4, 12, 7, 3, 1, 1, 5, 3, 2, 3, 3, 3, 7, 5, 3, 4, 2];
+pub const W_LEAKY: [u32; NOPS] = [30, 8, 5, 3, 4, 2, 18, 4, 12, 7, 3, 1, 1, 5, 3, 2, 3, 3, 3, 7, 5, 3, 4, 2, 6];
 /// entry-heavy mix (C14)
-pub const W_ENTRY: [u32; NOPS] = [8, 3, 1, 2, 2, 0, 6, 4, 30, 20, 1, 0, 1, 4, 1, 0, 0, 1, 1, 30, 20, 0, 0, 5];
+pub const W_ENTRY: [u32; NOPS] = [8, 3, 1, 2, 2, 0, 6, 4, 30, 20, 1, 0, 1, 4, 1, 0, 0, 1, 1, 30, 20, 0, 0, 5, 20];
 /// insert/remove churn (C13)
-pub const W_CHURN: [u32; NOPS] = [40, 5, 0, 3, 0, 0, 40, 2, 6, 3, 0, 0, 0, 0, 0, 0, 0, 0, 0, 3, 2, 0, 0, 0];
+pub const W_CHURN: [u32; NOPS] = [40, 5, 0, 3, 0, 0, 40, 2, 6, 3, 0, 0, 0, 0, 0, 0, 0, 0, 0, 3, 2, 0, 0, 0, 1];
 
 pub struct MapDrv<K: Elem, V: Elem> {
     pub map: Map<K, V>,
@@ -199,7 +199,7 @@ impl<K: Elem, V: Elem> MapDrv<K, V> {
             return false;
         }
         let mut op = rng.weighted(weights);
-        if self.model.len() >= self.max_live && matches!(op, 0 | 7 | 8 | 9 | 10 | 19 | 20) {
+        if self.model.len() >= self.max_live && matches!(op, 0 | 7 | 8 | 9 | 10 | 19 | 20 | 24) {
             op = 6;
         }
         self.steps += 1;
@@ -265,6 +265,7 @@ impl<K: Elem, V: Elem> MapDrv<K, V> {
             21 => self.op_get_many_mut(ctx, rng),
             22 => self.op_leak(ctx, rng),
             23 => self.op_raw_entry(ctx, rng),
+            24 => self.op_combinators_fmt(ctx, rng),
             _ => 0,
         }
     }
@@ -1120,6 +1121,235 @@ impl<K: Elem, V: Elem> MapDrv<K, V> {
             return v.id() as u64 + 1;
         }
         0
+    }
+
+    /// Entry combinators that the match-style operations above do not reach, `Debug` formatting of the map,
+    /// its iterators and its entries (these clone and walk the raw iterators), and `&mut` iteration.
+    fn op_combinators_fmt(&mut self, ctx: &mut Ctx, rng: &mut Rng) -> u64 {
+        let id = self.pick_id(rng);
+        let (k, kg) = self.mk_k(id);
+        let (v, vv, vg) = self.mk_v(rng);
+        let present = self.model.pos(id).is_some();
+        let sub = rng.below(22);
+        oplog!(ctx, "combinators_fmt sub{} key {},g{} val {},g{}", sub, id, kg, vv, vg);
+        let kr = KeyRef(id);
+        let ig = if K::HAS_GEN { INTO_GEN } else { 0 };
+        // what the model must do afterwards: 0 nothing, 1 set value if present, 2 insert (key gen kg) if absent,
+        // 3 insert-or-set with key gen kg when absent, 4 insert default if absent, 5 remove, 6 insert (key from Into) if absent,
+        // 7 insert-or-set with Into key when absent
+        let mut eff = 0u8;
+        let mut fmt_len = 0usize;
+        match sub {
+            0 => {
+                let o = self.map.rustc_entry(k).insert(v);
+                o.get().check();
+                eff = 3;
+            }
+            1 => {
+                self.map.rustc_entry(k).or_insert_with(|| v).check();
+                eff = 2;
+            }
+            2 => {
+                let e = self.map.rustc_entry(k);
+                e.key().check();
+                let mut nv = Some(v);
+                let e = e.and_modify(|x| *x = nv.take().unwrap());
+                drop(e);
+                eff = 1;
+            }
+            3 => {
+                drop(v);
+                self.map.rustc_entry(k).or_default().check();
+                eff = 4;
+            }
+            4 => {
+                drop(v);
+                drop(k);
+                self.map.entry_ref(&kr).or_default().check();
+                eff = 40;
+            }
+            5 => {
+                // Q = K here: EntryRef::key needs K: Borrow<Q>
+                let e = self.map.entry_ref(&k);
+                e.key().check();
+                let mut nv = Some(v);
+                let e = e.and_modify(|x| *x = nv.take().unwrap());
+                drop(e);
+                eff = 1;
+            }
+            6 => {
+                let o = self.map.raw_entry_mut().from_key(&kr).insert(k, v);
+                o.get().check();
+                eff = 3;
+            }
+            7 => {
+                let (a, b) = self.map.raw_entry_mut().from_key(&kr).or_insert(k, v);
+                a.check();
+                b.check();
+                eff = 2;
+            }
+            8 => {
+                let (a, b) = self.map.raw_entry_mut().from_key(&kr).or_insert_with(|| (k, v));
+                a.check();
+                b.check();
+                eff = 2;
+            }
+            9 => {
+                drop(k);
+                let mut nv = Some(v);
+                let e = self.map.raw_entry_mut().from_key(&kr).and_modify(|kk, x| {
+                    kk.check();
+                    *x = nv.take().unwrap();
+                });
+                drop(e);
+                eff = 1;
+            }
+            10 => {
+                drop(k);
+                let keep = rng.chance(1, 2);
+                let mut nv = Some(v);
+                let _ = self.map.raw_entry_mut().from_key(&kr).and_replace_entry_with(|kk, old| {
+                    kk.check();
+                    old.check();
+                    if keep {
+                        nv.take()
+                    } else {
+                        None
+                    }
+                });
+                eff = if keep { 1 } else { 5 };
+            }
+            11 => {
+                drop(k);
+                drop(v);
+                if let RawEntryMut::Occupied(o) = self.map.raw_entry_mut().from_key(&kr) {
+                    let (a, b) = o.get_key_value();
+                    a.check();
+                    b.check();
+                    if rng.chance(1, 2) {
+                        o.into_key().check();
+                    } else {
+                        o.into_mut().check();
+                    }
+                }
+            }
+            12 => {
+                drop(k);
+                drop(v);
+                // &mut iteration and the iter() views of the mutable/owning iterators
+                let mut n = 0;
+                for (a, b) in &mut self.map {
+                    a.check();
+                    b.check();
+                    n += 1;
+                }
+                crate::check!(n == self.map.len(), "for (k, v) in &mut map yields {} of {}", n, self.map.len());
+                let it = self.map.iter_mut();
+                let seen = it.rustc_iter().count();
+                crate::check!(seen == n, "IterMut::rustc_iter() yields {} of {}", seen, n);
+                let c2 = self.map.clone();
+                let into = c2.into_iter();
+                crate::check!(into.rustc_iter().count() == n, "IntoIter::rustc_iter() count differs");
+                drop(into);
+            }
+            13..=21 => {
+                drop(k);
+                drop(v);
+                let len = self.map.len();
+                let s = match sub {
+                    13 => format!("{:?}", self.map),
+                    14 => format!("{:?} {:?} {:?}", self.map.iter(), self.map.keys(), self.map.values()),
+                    15 => {
+                        let a = format!("{:?}", self.map.iter_mut());
+                        a + &format!("{:?}", self.map.values_mut())
+                    }
+                    16 => {
+                        let c2 = self.map.clone();
+                        let mut it = c2.into_iter();
+                        it.next();
+                        let a = format!("{:?}", it);
+                        let c3 = self.map.clone();
+                        let b = format!("{:?} {:?}", c3.clone().into_keys(), c3.into_values());
+                        a + &b
+                    }
+                    17 => {
+                        // Debug of a Drain over a clone (the original keeps its contents)
+                        let mut c2 = self.map.clone();
+                        let mut d = c2.drain();
+                        d.next();
+                        let a = format!("{:?}", d);
+                        crate::check!(d.rustc_iter().count() == len.saturating_sub(1), "Drain::rustc_iter() count differs");
+                        drop(d);
+                        a
+                    }
+                    18 => {
+                        let kk = K::make(id, 0);
+                        format!("{:?}", self.map.entry(kk))
+                    }
+                    19 => {
+                        let kk = K::make(id, 0);
+                        let a = format!("{:?}", self.map.entry_ref(&kk));
+                        a + &format!("{:?}", self.map.raw_entry().from_key(&kr).is_some())
+                    }
+                    20 => {
+                        let a = format!("{:?}", self.map.raw_entry_mut().from_key(&kr));
+                        let b = format!("{:?}", self.map.raw_entry_mut()) + &format!("{:?}", self.map.raw_entry());
+                        a + &b
+                    }
+                    _ => {
+                        let kk = K::make(id, 0);
+                        let a = format!("{:?}", self.map.rustc_entry(kk));
+                        let b = match self.map.try_insert(K::make(id, 0), V::make(0, 0)) {
+                            Err(e) => format!("{:?} / {}", e, e),
+                            Ok(_) => {
+                                // the probe key was absent and is now in the map: undo, the model is not touched
+                                self.map.remove(&kr);
+                                String::from("inserted")
+                            }
+                        };
+                        a + &b
+                    }
+                };
+                fmt_len = s.len();
+                if sub == 13 {
+                    // a map formats as { k: v, ... }: one ": " per entry (element Debug output contains no ": ")
+                    crate::check!(s.matches(": ").count() == len, "Debug of the map shows {} entries, len() is {}", s.matches(": ").count(), len);
+                }
+                crate::check!(!s.is_empty(), "empty Debug output");
+            }
+            _ => {}
+        }
+        match eff {
+            1 => {
+                if let Some(p) = self.model.pos(id) {
+                    self.model.e[p].v = vv;
+                    self.model.e[p].vgen = vg;
+                }
+            }
+            2 => {
+                if !present {
+                    self.model.insert(id, kg, vv, vg);
+                }
+            }
+            3 => {
+                self.model.insert(id, kg, vv, vg);
+            }
+            4 => {
+                if !present {
+                    self.model.insert(id, kg, 0, 0);
+                }
+            }
+            40 => {
+                if !present {
+                    self.model.insert(id, ig, 0, 0);
+                }
+            }
+            5 => {
+                self.model.remove(id);
+            }
+            _ => {}
+        }
+        sub * 100 + (fmt_len > 0) as u64
     }
 
     // ---- bulk operations ---------------------------------------------------------------
